@@ -168,7 +168,7 @@ def replay_only(prop, unit, repo, outdir, reason):
   """The unit's text changed into something the engine cannot put under its contract (no obligations to refute):
   the unit's replay scenarios are run on the real code as a stand-in.  Only a confirmed failure is reported."""
   os.makedirs(outdir, exist_ok=True)
-  path = os.path.join(outdir, re.sub(r'[^A-Za-z0-9_.-]+', '_', '%s__unverifiable' % unit)[:150] + '.json')
+  path = os.path.join(outdir, re.sub(r'[^A-Za-z0-9_.-]+', '_', '%s__%s' % (unit, 'bounded' if reason.startswith('bounded') else 'unverifiable'))[:150] + '.json')
   rec = dict(property=prop, unit=unit, obligation='contract of %s (not checkable on the changed text)' % unit, repo=repo,
              description='the changed function is outside the verified subset (%s); replay of its contract scenarios on the real code' % reason,
              witness=None, solver_output='no verification conditions could be generated: ' + reason)
@@ -317,6 +317,18 @@ def run_check(prop, tier, repo, jobs, seed, record_baseline=False):
         vio_records.append((ob, path, True))
         lines.append('VIOLATION property=%s replay=%s' % (prop, path))
         lines.append('  %s: %s' % (g['unit'], ob['desc']))
+  # bounded stand-ins (props.BOUNDED): clauses whose code is outside the verified subset are exercised on the real code
+  # over a stated finite family on every run.  They are never counted as proved; a failing one is a violation.
+  bounded_results = []
+  for b in getattr(pmod, 'BOUNDED', []):
+    path, confirmed = replay_only(prop, b['replay_unit'], repo, outdir, 'bounded stand-in: ' + b['bound'])
+    bounded_results.append(dict(name=b['name'], bound=b['bound'], held=not confirmed, replay=path))
+    if confirmed:
+      ob = dict(unit=b['replay_unit'], name='bounded:' + b['name'], desc='bounded stand-in fails on the real code (%s)' % b['bound'],
+                status='failed', backend='bounded-replay', line=None, path=[])
+      vio_records.append((ob, path, True))
+      lines.append('VIOLATION property=%s replay=%s' % (prop, path))
+      lines.append('  bounded stand-in %s (%s)' % (b['name'], b['bound']))
   violations = [v[0] for v in vio_records]
   unknown = undecided_obs
   for g in errors:
@@ -345,7 +357,7 @@ def run_check(prop, tier, repo, jobs, seed, record_baseline=False):
   wall = time.time() - t_start
   if record_baseline and code == 0:
     write_baseline(prop, gens)
-  write_evidence(prop, tier, seed, pmod, gens, all_obs, n_ob, n_dis, known_hits, vio_records, errors, unknown, wall, repo, timeout_ms, trusted_units)
+  write_evidence(prop, tier, seed, pmod, gens, all_obs, n_ob, n_dis, known_hits, vio_records, errors, unknown, wall, repo, timeout_ms, trusted_units, bounded_results)
   for l in lines:
     print(l)
   print('%s property=%s tier=%s units=%d obligations=%d discharged=%d failed=%d unknown=%d errors=%d wall=%.1fs' % (
@@ -353,7 +365,7 @@ def run_check(prop, tier, repo, jobs, seed, record_baseline=False):
   return code
 
 
-def write_evidence(prop, tier, seed, pmod, gens, all_obs, n_ob, n_dis, known_hits, vio_records, errors, unknown, wall, repo, timeout_ms, trusted_units=()):
+def write_evidence(prop, tier, seed, pmod, gens, all_obs, n_ob, n_dis, known_hits, vio_records, errors, unknown, wall, repo, timeout_ms, trusted_units=(), bounded_results=()):
   reg = _registry()
   backends = {}
   for ob in all_obs:
@@ -392,7 +404,7 @@ def write_evidence(prop, tier, seed, pmod, gens, all_obs, n_ob, n_dis, known_hit
       known_findings=[dict(obligation=ob['unit'] + '::' + ob['name'], what=f['what']) for f, ob in known_hits],
       violation_replays=[dict(obligation=ob['unit'] + '::' + ob['name'], replay=p, confirmed_on_real_code=c) for ob, p, c in vio_records],
       dropped_by_extraction=dropped, inlined_from_source=inlined,
-      bounded=list(getattr(pmod, 'BOUNDED', [])),
+      bounded=list(bounded_results),
       samples=samples,
       repo=repo,
     ),
